@@ -42,12 +42,13 @@ def parts(tier):
         # way it ends (C07's engine, C03 clauses of its oracle)
         Part('executor', c07.schedules(), quick=150, thorough=1200),
         Part('executor_sweep', enum=c07.sweep_cases),
+        Part('executor_noop', c07.schedules(spawner='NOOP'), quick=80, thorough=600),
     ]
 
 
 def run_case(case):
     if case.get('kind') in ('sched', 'sweep', 'dfs'):
-        sim = execsim.run_schedule(case)
+        sim = execsim.run_schedule(c07.noop_view(case))
         res = CaseResult()
         seen = set()
         for p, sig, msg in sim.problems:
